@@ -455,13 +455,30 @@ def _check_fragment(world, ev, before, rec, after, eff, model, out):
                                                        for o in got.split(';') if o]})
 
 
+class _RecordingModel(core.Model):
+    """Keeps a few (request, answer) pairs of every kind for the cross-evaluation inside Coq (lib/coqeval.py)."""
+
+    def __init__(self, exe, per_kind=3):
+        core.Model.__init__(self, exe)
+        self.sample, self.per_kind, self.n = [], per_kind, {}
+
+    def batch(self, lines, timeout=3600):
+        res = core.Model.batch(self, lines, timeout)
+        for req, ans in zip(lines, res):
+            k = req.split(' ', 1)[0]
+            if self.n.get(k, 0) < self.per_kind and len(req) < 6000:
+                self.n[k] = self.n.get(k, 0) + 1
+                self.sample.append((req, ans))
+        return res
+
+
 def _worker(args):
     seed, length, mode, monitor_names, exe, do_corr, cfg_override, max_prs, admin_jobs, replay_history, fault_spec = args[:11]
     qm_mod = args[11] if len(args) > 11 else 8
     from . import faults as faults_mod
     os.environ['PYTHONHASHSEED'] = '0'
     from . import histories, monitors
-    model = core.Model(exe) if exe and do_corr else None
+    model = _RecordingModel(exe) if exe and do_corr else None
     mons = [(n, getattr(monitors, n)) for n in monitor_names]
     out = {'seed': seed, 'jobs': 0, 'violations': [], 'mismatch': [], 'hist': {}, 'nontrivial': [], 'gates': [],
            'trace_ops': 0, 'history': None, 'error': None, 'wall': 0.0}
@@ -538,6 +555,7 @@ def _worker(args):
     except Exception:
         out['error'] = traceback.format_exc()[-2000:]
     out['wall'] = time.time() - t0
+    out['xsample'] = model.sample if model is not None else []
     if not out['violations'] and not out['mismatch'] and not out['error']:
         out['history'] = {'cfg': out['history']['cfg'], 'n_events': len(out['history']['events'])} \
             if out['history'] else None
@@ -571,6 +589,11 @@ def run(ctx, seeds, length, monitor_names, mode=None, do_corr=True, cfg_override
             ctx.count(k, v)
         for k in r['nontrivial']:
             ctx.seen_nontrivial(k)
+        if r.get('xsample'):
+            if not hasattr(ctx, 'xpairs'):
+                ctx.xpairs = []
+            if len(ctx.xpairs) < 4000:
+                ctx.xpairs.extend(tuple(p) for p in r['xsample'])
         if r['error']:
             ctx.mismatch({'seed': r['seed']}, r['error'], None, 'history-harness-crash')
         for m in r['mismatch']:
